@@ -115,7 +115,20 @@ func BoolC(b bool) *Term {
 func IntC(v *big.Int) *Term {
 	return intern(&Term{Op: OConst, Sort: Int, Rat: new(big.Rat).SetInt(v), Lo: v, Hi: v})
 }
-func I64(v int64) *Term { return IntC(big.NewInt(v)) }
+var smallInts [2049]*Term
+
+func init() {
+	for v := int64(-1024); v <= 1024; v++ {
+		smallInts[v+1024] = IntC(big.NewInt(v))
+	}
+}
+
+func I64(v int64) *Term {
+	if v >= -1024 && v <= 1024 {
+		return smallInts[v+1024]
+	}
+	return IntC(big.NewInt(v))
+}
 func RealC(r *big.Rat) *Term {
 	return intern(&Term{Op: OConst, Sort: Real, Rat: new(big.Rat).Set(r)})
 }
